@@ -641,8 +641,12 @@ func (t *Tpl) writeNode(w io.Writer, node *node, ctx *Ctx) (err error) {
 			ctx.incD++
 			err = writeTree(w1, tpl, ctx)
 			ctx.incD--
-			if err == nil {
-				_, err = w.Write(w1.Bytes())
+			// What the included template wrote is output as if its source stood in place of the tag: also what it wrote
+			// before it ended by break / continue (meant for a loop of the including template) or by an error.
+			if err == nil || w1.Len() > 0 {
+				if _, werr := w.Write(w1.Bytes()); werr != nil {
+					err = werr
+				}
 			}
 			// Give the writer back: next include on the same level will reuse it.
 			ctx.putW()
